@@ -6,10 +6,16 @@
   an estimate never exceeds 15; before initialisation every estimate is zero and recording is a no-op; `increment`
   (unrolled code) and `frequency` (loop code) address the same four counters; the admission decision is exactly
   "candidate strictly more popular, or (candidate ≥ 6 and the 1/128 random draw)".
-  Nibble-level theorems (saturating increment, halving) are in Proofs.Nibble.
+  Lifted to the table model (Proofs.SketchCount, bit-level bridges proven, no bound on anything): within one sampling
+  period (no aging step) the estimate of a key is at least min(15, number of times it was recorded), whatever else was
+  recorded and in whatever order, for every table ensureCapacity can build (every requested maximum: RoundUpPowerOf2 is
+  shown to produce a multiple of 8 whenever it is at least 8, so every counter position lies inside the table); `increment`
+  is exactly that recording step, followed by the aging step when the sample is full; the aging step halves every
+  counter and hence every estimate.
 -/
 import OtterVerif.Impl.Sketch
 import OtterVerif.Proofs.Nibble
+import OtterVerif.Proofs.SketchCount
 
 namespace OtterVerif.Props.C18
 open OtterVerif OtterVerif.Impl.Sketch
@@ -36,7 +42,11 @@ theorem c18_le_15 (s : Sketch) (h : BitVec 64) : (frequencyH s h).toNat ≤ 15 :
 /-- before frequency tracking is enabled every estimate is zero and recording changes nothing -/
 theorem c18_uninitialised (s : Sketch) (h : BitVec 64) (hi : s.initialized = false) :
     frequencyH s h = 0 ∧ incrementH s h = s := by
-  unfold frequencyH incrementH; simp [hi]
+  constructor
+  · unfold frequencyH; simp [hi]
+  · unfold incrementH
+    rw [incrementNR_uninit s h hi]
+    simp [hi]
 
 /-- `increment` and `frequency` address the same four counters -/
 theorem c18_same_counters (s : Sketch) (h : BitVec 64) :
@@ -76,6 +86,65 @@ theorem c18_cold_never_admitted (c v : BitVec 64) (r : BitVec 32) (h1 : c.toNat 
 theorem c18_incr_nibble (w j : Nat) (hj : j < 16) (hw : w < 2 ^ 64) (hc : Nibble.nib w j < 15) :
     Nibble.nib (w + 16 ^ j) j = Nibble.nib w j + 1 ∧ ∀ j', j' ≠ j → Nibble.nib (w + 16 ^ j) j' = Nibble.nib w j' :=
   ⟨Nibble.nib_incr_self w j hc, fun j' hj' => Nibble.nib_incr_other w j j' hj' hc⟩
+
+/-! ### Never under-counts; aging halves -/
+
+/-- `increment` = record (incrementNR), then age exactly when the sample became full -/
+theorem c18_increment_shape (s : Sketch) (h : BitVec 64) :
+    incrementH s h = incrementNR s h ∨ incrementH s h = reset (incrementNR s h) :=
+  incrementH_eq s h
+
+/-- within one sampling period the estimate of a key is at least the number of times it was recorded (capped at 15),
+    regardless of what other keys were recorded and in which order — for every well-laid-out table -/
+theorem c18_never_undercounts (s : Sketch) (hl : Layout s) (hi : s.initialized = true) (hs : List (BitVec 64)) (h : BitVec 64) :
+    min 15 (occ h hs) ≤ (frequencyH (hs.foldl incrementNR s) h).toNat := by
+  have h0 : LB s h 0 := fun p _ => by simp
+  have := record_lb hs s h 0 (wf_of_layout s hl) hi h0
+  rw [Nat.zero_add] at this
+  exact frequencyH_lb _ h _ this.2.2 this.1
+
+/-- … in particular for every table that ensureCapacity builds, for every requested maximum (powers of two or not) -/
+theorem c18_never_undercounts_any_capacity (s : Sketch) (m : BitVec 64) (hch : (ensureCapacity s m).2 = true)
+    (hs : List (BitVec 64)) (h : BitVec 64) :
+    min 15 (occ h hs) ≤ (frequencyH (hs.foldl incrementNR (ensureCapacity s m).1) h).toNat := by
+  obtain ⟨n, ss, _, _, he⟩ := ensureCapacity_shape s m hch
+  exact c18_never_undercounts _ (ensureCapacity_layout s m hch) (by rw [he]) hs h
+
+theorem min4_half (A a b c d : Nat) (hA : 15 ≤ A) (ha : a ≤ 15) :
+    min (min (min (min A (a/2)) (b/2)) (c/2)) (d/2) = (min (min (min (min A a) b) c) d) / 2 := by omega
+theorem allOnes_ge : 15 ≤ (BitVec.allOnes 64).toNat := by decide
+
+/-- the aging step halves every counter … -/
+theorem c18_aging_halves_counters (s : Sketch) (slot idx : BitVec 64) (hj : idx.toNat < 16) :
+    cnt (reset s) slot idx = cnt s slot idx / 2 :=
+  reset_cnt s slot idx hj
+
+/-- … and therefore every estimate -/
+theorem c18_aging_halves_estimates (s : Sketch) (h : BitVec 64) :
+    (frequencyH (reset s) h).toNat = (frequencyH s h).toNat / 2 := by
+  have hr : List.range 4 = [0, 1, 2, 3] := by decide
+  have hpos : counterPosUnrolled s h = (List.range 4).map (counterPos s h) := c18_same_counters s h
+  have hidx : ∀ i, i ∈ [0, 1, 2, 3] → (counterPos s h i).2.toNat < 16 := by
+    intro i him
+    exact pos_idx s h _ (by rw [hpos, hr]; exact List.mem_map_of_mem him)
+  have hcp : ∀ i, counterPos (reset s) h i = counterPos s h i := fun i => rfl
+  unfold frequencyH
+  have hinit : (reset s).initialized = s.initialized := rfl
+  rw [hinit]
+  cases hi : s.initialized with
+  | false => simp
+  | true =>
+    simp only [Bool.not_true, Bool.false_eq_true, ↓reduceIte]
+    rw [hr, List.foldl_cons, List.foldl_cons, List.foldl_cons, List.foldl_cons, List.foldl_nil,
+      List.foldl_cons, List.foldl_cons, List.foldl_cons, List.foldl_cons, List.foldl_nil]
+    simp only [umin_toNat, hcp]
+    rw [readCount_eq_cnt _ _ _ (hidx 0 (by simp)), readCount_eq_cnt _ _ _ (hidx 1 (by simp)),
+      readCount_eq_cnt _ _ _ (hidx 2 (by simp)), readCount_eq_cnt _ _ _ (hidx 3 (by simp)),
+      readCount_eq_cnt s _ _ (hidx 0 (by simp)), readCount_eq_cnt s _ _ (hidx 1 (by simp)),
+      readCount_eq_cnt s _ _ (hidx 2 (by simp)), readCount_eq_cnt s _ _ (hidx 3 (by simp)),
+      reset_cnt _ _ _ (hidx 0 (by simp)), reset_cnt _ _ _ (hidx 1 (by simp)), reset_cnt _ _ _ (hidx 2 (by simp)),
+      reset_cnt _ _ _ (hidx 3 (by simp))]
+    exact min4_half _ _ _ _ _ allOnes_ge (cnt_le_15 s (counterPos s h 0).1 (counterPos s h 0).2)
 
 /-! ### Non-vacuity -/
 example : admitDecision 7 7 128 = true ∧ admitDecision 5 7 128 = false ∧ admitDecision 3 2 1 = true := by decide
